@@ -56,20 +56,24 @@ C10_Safe(ev, m) ==
          \* kept literally in the hash (for the traditional DES settings: the two salt characters)
          /\ (p.k = "ok" => IF m \in {"bigcrypt", "descrypt"} THEN S!StartsWith(ev.res, p.canon)
                            ELSE S!StartsWith(p.canon \o S!SepOf(m), ev.res))
-C10_Deterministic(ev) ==
+A_Deterministic(ev) ==
   (ev.gprev > 0 /\ ev.gprev < l /\ IsGs(T[ev.gprev].e) /\ SameReq(T[ev.gprev], ev)
      /\ Size(T[ev.gprev]) >= G!GENSALT_OUTPUT_SIZE /\ Size(ev) >= G!GENSALT_OUTPUT_SIZE /\ ev.rbnull = 0)
+C10_Deterministic(ev) ==
+  A_Deterministic(ev)
   => (Success(ev) = Success(T[ev.gprev]) /\ (Success(ev) => ev.res = T[ev.gprev].res))
 C10_Where(ev) ==
   Success(ev) => CASE ev.e \in {"gensalt", "xgensalt"} -> ev.ret = "static"
                    [] ev.e = "gensalt_ra" -> ev.ret = "heap"
                    [] OTHER -> ev.ret = "out"
 \* C18: a NULL prefix produces exactly what the preferred method's prefix produces
-C18_NullIsPreferred(ev) ==
+A_NullIsPreferred(ev) ==
   (ev.nprev > 0 /\ ev.nprev < l /\ IsGs(T[ev.nprev].e) /\ ev.prefixnull = 1 /\ T[ev.nprev].prefixnull = 0
      /\ S!DefaultMethod(Enabled) # "none" /\ T[ev.nprev].prefix = S!PrefixOf[S!DefaultMethod(Enabled)]
      /\ T[ev.nprev].cd = ev.cd /\ T[ev.nprev].rb = ev.rb /\ T[ev.nprev].rbnull = 0 /\ ev.rbnull = 0
      /\ T[ev.nprev].nrbytes = ev.nrbytes /\ Size(T[ev.nprev]) = Size(ev))
+C18_NullIsPreferred(ev) ==
+  A_NullIsPreferred(ev)
   => (Success(ev) = Success(T[ev.nprev]) /\ ev.res = T[ev.nprev].res /\ (~Success(ev) => ev.errno = T[ev.nprev].errno))
 \* ---- C11 ----------------------------------------------------------------
 C11_Cost(ev, m) ==
@@ -89,11 +93,13 @@ C12_Salt(ev, m) ==
     /\ ((Size(ev) >= G!GENSALT_OUTPUT_SIZE /\ (ev.rbnull = 1 \/ ev.nrbytes >= 16)) =>
           G!SaltBits(m, ev.res) >= (IF ev.rbnull = 1 /\ m = "md5crypt" THEN 48 ELSE G!StdSaltBits(m)))
 \* a one-bit change of the random bytes that the specification says is consumed changes the result
-C12_Flip(ev) ==
+A_Flip(ev) ==
   (ev.fprev > 0 /\ ev.fprev < l /\ IsGs(T[ev.fprev].e) /\ Success(T[ev.fprev]) /\ Success(ev)
      /\ T[ev.fprev].prefix = ev.prefix /\ T[ev.fprev].cd = ev.cd /\ T[ev.fprev].nrbytes = ev.nrbytes
      /\ Size(T[ev.fprev]) = Size(ev) /\ T[ev.fprev].rb # ev.rb /\ Evaluable(ev) /\ Evaluable(T[ev.fprev])
      /\ LET a == Model(T[ev.fprev])  b == Model(ev) IN a.ok /\ b.ok /\ (a.str # b.str \/ a.tail # b.tail))
+C12_Flip(ev) ==
+  A_Flip(ev)
   => ev.res # T[ev.fprev].res
 \* auto-entropy comes from the OS source and is what the salt encodes; two fresh draws differ
 C12_Entropy(ev) ==
@@ -116,12 +122,16 @@ C13_Local(ev) ==
           [] OTHER -> TRUE)
   /\ (Size(ev) < 3 => (~Success(ev) /\ ev.errno = G!ERANGE))
 \* success is monotone in output_size and shorter buffers receive a leading part
-C13_Monotone(ev) ==
+A_Monotone(ev) ==
   (ev.rbnull = 0 /\ ev.sprev > 0 /\ ev.sprev < l /\ IsGs(T[ev.sprev].e) /\ SameReq(T[ev.sprev], ev) /\ Size(T[ev.sprev]) < Size(ev)
      /\ Success(T[ev.sprev]))
+C13_Monotone(ev) ==
+  A_Monotone(ev)
   => (Success(ev) /\ S!StartsWith(ev.res, T[ev.sprev].res))
-C13_Full(ev) ==
+A_Full(ev) ==
   (ev.rbnull = 0 /\ ev.s192 > 0 /\ ev.s192 < l /\ IsGs(T[ev.s192].e) /\ SameReq(T[ev.s192], ev) /\ Size(T[ev.s192]) = G!GENSALT_OUTPUT_SIZE)
+C13_Full(ev) ==
+  A_Full(ev)
   => /\ ((Success(ev) /\ Size(ev) <= G!GENSALT_OUTPUT_SIZE) => (Success(T[ev.s192]) /\ S!StartsWith(T[ev.s192].res, ev.res)))
      \* sizes at or above the documented one receive the same result -- for up to 64 random bytes, for which the
      \* documented size is promised to suffice (with more bytes a larger buffer may legitimately succeed where 192 did not)
@@ -137,6 +147,20 @@ C04_Statics(ev) == \A i \in 1..Len(ev.sw) : ev.sw[i] \in AllowedSW(ev)
 C14_RA(ev) == ev.e = "gensalt_ra" =>
                  ((ev.ret = "null" /\ ev.liveheap = ev.hlive) \/ (ev.ret = "heap" /\ ev.liveheap = ev.hlive + 1)) /\ ev.badfree = 0
 
+\* vacuity guard: how often the antecedent of each relational predicate held (cnt.ant; tools/props.py REQUIRED_ANTS)
+AntNames == {"Success", "Deterministic", "NullIsPreferred", "Flip", "EntropyFresh", "Monotone", "Full", "SmallSize", "CostReject",
+             "AutoEntropy", "NonzeroErrno", "GensaltRA"}
+Ants(ev) ==
+  LET m == MethodOfEv(ev) IN
+  (IF Success(ev) THEN {"Success"} ELSE {}) \cup (IF A_Deterministic(ev) THEN {"Deterministic"} ELSE {})
+  \cup (IF A_NullIsPreferred(ev) THEN {"NullIsPreferred"} ELSE {}) \cup (IF WellFormed(ev) /\ A_Flip(ev) THEN {"Flip"} ELSE {})
+  \cup (IF ev.fresh = 1 /\ ev.gprev > 0 /\ ev.gprev < l /\ IsGs(T[ev.gprev].e) /\ T[ev.gprev].fresh = 1 THEN {"EntropyFresh"} ELSE {})
+  \cup (IF A_Monotone(ev) THEN {"Monotone"} ELSE {}) \cup (IF A_Full(ev) THEN {"Full"} ELSE {})
+  \cup (IF Size(ev) < 3 THEN {"SmallSize"} ELSE {})
+  \cup (IF m # "none" /\ G!DocCost(m, ev.cd).k = "reject" THEN {"CostReject"} ELSE {})
+  \cup (IF ev.rbnull = 1 /\ ev.entcalls >= 1 THEN {"AutoEntropy"} ELSE {})
+  \cup (IF "ein" \in DOMAIN ev /\ ev.ein # 0 THEN {"NonzeroErrno"} ELSE {})
+  \cup (IF ev.e = "gensalt_ra" THEN {"GensaltRA"} ELSE {})
 V(p, n) == [l |-> l, p |-> p, n |-> n]
 Chk(ok, p, n) == IF ok THEN {} ELSE {V(p, n)}
 
@@ -161,7 +185,7 @@ JudgeGs(ev) ==
      \cup Chk(C04_Statics(ev), "C08", "Statics") \cup Chk(C14_RA(ev), "C14", "GensaltRA"),
    div |-> IF ev.fresh = 1 \/ ~Evaluable(ev) \/ (m # "none" /\ ~C10_Safe(ev, m)) \/ ModelAgrees(ev, Model(ev)) THEN {} ELSE {[l |-> l, d |-> "gensalt-model"]}]
 
-Init == l = 1 /\ viol = {} /\ div = {} /\ cnt = [calls |-> 0, ok |-> 0, failed |-> 0]
+Init == l = 1 /\ viol = {} /\ div = {} /\ cnt = [calls |-> 0, ok |-> 0, failed |-> 0, ant |-> [n \in AntNames |-> 0]]
 Step ==
   /\ l <= Len(T)
   /\ l' = l + 1
@@ -171,7 +195,8 @@ Step ==
         /\ viol' = viol \cup j.viol
         /\ div' = div \cup j.div
         /\ cnt' = [cnt EXCEPT !.calls = @ + 1, !.ok = @ + (IF Success(ev) THEN 1 ELSE 0),
-                               !.failed = @ + (IF Success(ev) THEN 0 ELSE 1)]
+                               !.failed = @ + (IF Success(ev) THEN 0 ELSE 1),
+                               !.ant = LET a == Ants(ev) IN [n \in AntNames |-> @[n] + (IF n \in a THEN 1 ELSE 0)]]
      ELSE IF ev.e = "Fault" THEN
         /\ viol' = viol \cup {V("C13", "Fault")}
         /\ UNCHANGED <<div, cnt>>
